@@ -38,18 +38,59 @@ def case_coq(c):
     return "(%s, %s, %s)" % (zz(c["mult"]), zl(c["in"]), impl)
 
 
+def rows_coq(rows):
+    out = []
+    for r in rows:
+        tags = "[" + "; ".join("(%s, %s)" % (zl(k), zl(v)) for k, v in r["tags"]) + "]"
+        fields = "[" + "; ".join("(%s, %d, %s, %s, %s)" % (zl(f["k"]), f["t"], zz(f["bits"]), zz(f["stored"]), zl(f["s"]))
+                                 for f in r["fields"]) + "]"
+        ts = "None" if r["ts"] is None else "(Some %s)" % zz(r["ts"])
+        out.append("(%s, %s, %s, %s)" % (zl(r["name"]), tags, fields, ts))
+    return "[" + "; ".join(out) + "]"
+
+
+def hcase_coq(c):
+    """write-endpoint case: (factor, max-body-size, Content-Length, gzip, decoded body, acknowledged, stored rows)"""
+    h = c["http"]
+    lim = "None" if not h["limit"] else "(Some %d)" % h["limit"]
+    dec = "None" if h["declared"] < 0 else "(Some %d)" % h["declared"]
+    gz = "true" if h["kind"].startswith("gzip") else "false"
+    return "(%s, %s, %s, %s, %s, %s, %s)" % (zz(c["mult"]), lim, dec, gz, zl(c["in"]), "false" if c["err"] else "true", rows_coq(c["rows"]))
+
+
+def scase_coq(c):
+    """block-reader case: (end, max-line-size, schedule, stream, observed blocks, clean end). A max-line-size beyond the
+    length of the stream is clamped to it (never reached either way; keeps unary numbers small)."""
+    st = c["stream"]
+    n = len(st["body"]) // 2
+    sched = "[" + "; ".join("[" + "; ".join(str(x) for x in ch) + "]" for ch in st["sched"]) + "]"
+    blocks = "[" + "; ".join("(%s, %d)" % (zl(b["b"]), b["cap"]) for b in st["blocks"]) + "]"
+    return "(%d, %d, %s, %s, %s, %s)" % (st["end"], min(st["maxline"], n + 1), sched, zl(st["body"]), blocks, "true" if st["ok"] else "false")
+
+
+HEAD = ("From Coq Require Import ZArith NArith List Bool. From OG Require Import C06.Model C06.Corr.\n"
+        "Import ListNotations. Open Scope Z_scope.\n")
+
+
 def eval_model(ck, cases, shard=150):
-    """returns {case index: code} for codes != 0, or None when the evaluation itself failed"""
+    """returns ({case index: code} for codes != 0, [indices of stream cases the reader model does not reproduce]),
+    or None when the evaluation itself failed"""
     files = []
-    for i in range(0, len(cases), shard):
-        chunk = cases[i:i + shard]
-        txt = ("From Coq Require Import ZArith NArith List Bool. From OG Require Import C06.Model C06.Corr.\n"
-               "Import ListNotations. Open Scope Z_scope.\n"
-               "Definition cases : list icase := [\n%s\n].\n"
-               "Definition M := Eval vm_compute in codes cases.\nPrint M.\n") % ";\n".join(case_coq(c) for c in chunk)
-        files.append(("c06cases%d" % (i // shard), txt))
+    groups = []          # per file: (kind, [global indices])
+    plain = [i for i, c in enumerate(cases) if not c.get("http")]
+    http = [i for i, c in enumerate(cases) if c.get("http")]
+    stream = [i for i, c in enumerate(cases) if c.get("stream")]
+    for kind, idxs, typ, fn, conv, sh in (("p", plain, "icase", "codes", case_coq, shard), ("h", http, "hcase", "hcodes", hcase_coq, 60),
+                                          ("s", stream, "scase", "scodes", scase_coq, 80)):
+        for i in range(0, len(idxs), sh):
+            chunk = idxs[i:i + sh]
+            txt = HEAD + ("Definition cases : list %s := [\n%s\n].\nDefinition M := Eval vm_compute in %s cases.\nPrint M.\n"
+                          % (typ, ";\n".join(conv(cases[j]) for j in chunk), fn))
+            files.append(("c06cases%s%d" % (kind, i // sh), txt))
+            groups.append((kind, chunk))
     res = ck.coq_eval_many(files, timeout=600)
     codes = {}
+    sbad = []
     ok = True
     for idx, (rc, out) in enumerate(res):
         m = re.search(r"M\s*=\s*(.*?)\s*:\s*list", out, re.S)
@@ -57,9 +98,13 @@ def eval_model(ck, cases, shard=150):
             ck.broken.append("C06 model evaluation failed on shard %d: %s" % (idx, out[-400:]))
             ok = False
             continue
+        kind, chunk = groups[idx]
         for a, b in re.findall(r"\(\s*(\d+)(?:%nat)?\s*,\s*(\d+)\s*\)", m.group(1)):
-            codes[idx * shard + int(a)] = int(b)
-    return codes if ok else None
+            if kind == "s":
+                sbad.append(chunk[int(a)])
+            else:
+                codes[chunk[int(a)]] = int(b)
+    return (codes, sbad) if ok else None
 
 
 def code_ids(code):
@@ -86,6 +131,8 @@ def judge(ck, cases, codes, stats):
         replay = {"kind": "direct-oracle", "case_index": c["i"], "class": c["class"], "sub": c.get("sub"), "mult": c["mult"],
                   "in": c["in"], "text": c["text"], "implementation": {"err": c["err"], "rows": c["rows"]},
                   "oracle": c["oracle"], "model_code": code}
+        if c.get("http"):
+            replay["http"] = c["http"]
         if "none" in oids:
             # the property statement fails on the real code and no recorded signature covers the input
             if reported < 3:
@@ -176,7 +223,7 @@ def main(ck):
     have = {f["id"] for f in ck.findings}
     ck.findings += [f for f in json.load(open(frag))["findings"] if f["property"] == PID and f["id"] not in have]
     ck.coq_audit(["C06"])
-    ok = ck.coq_build(["C06/Proofs.vo", "C06/Corr.vo"])
+    ok = ck.coq_build(["C06/Proofs.vo", "C06/ProofsInt.vo", "C06/ProofsDec.vo", "C06/ProofsRender.vo", "C06/ProofsStream.vo", "C06/Corr.vo"])
     if ok:
         ck.coq_props(["C06/Props.v", "C06/Refuted.v"])
     binp = ck.go_build("./cmd/c06", "c06")
@@ -191,16 +238,28 @@ def main(ck):
     if rc != 0 or not done or int(done.group(1)) != len(cases) or len(cases) < n:
         ck.broken.append("harness c06 failed rc=%d cases=%d: %s" % (rc, len(cases), out[-600:]))
         return
-    sweep = re.search(r'\{"stream_sweep":(\d+),"failed":(\d+)\}', out)
+    sweep = re.search(r'\{"stream_sweep":(\d+),"failed":(\d+),"multi":(\d+)\}', out)
     if not sweep:
         ck.broken.append("harness c06: block-reader boundary sweep did not report")
     else:
         ck.cov["block_reader_sweep_bodies"] = int(sweep.group(1))
         ck.cov["block_reader_sweep_failed"] = int(sweep.group(2))
-    codes = eval_model(ck, cases) if ok else None
+        ck.cov["block_reader_sweep_multi_block"] = int(sweep.group(3))
+        if int(sweep.group(3)) * 2 < int(sweep.group(1)):
+            ck.broken.append("harness c06: the boundary sweep of the block reader is vacuous (%s of %s bodies arrived in more than one block)"
+                             % (sweep.group(3), sweep.group(1)))
+    ev = eval_model(ck, cases) if ok else None
+    codes = ev[0] if ev is not None else None
     stats = {"by_finding": collections.Counter(), "first": {}, "unlisted_failures": 0}
     if codes is not None:
         judge(ck, cases, codes, stats)
+        for i in ev[1][:3]:
+            c = cases[i]
+            ck.broken.append("correspondence C06 block reader: the model (read_blocks with the replayed buffer capacities) does not deliver "
+                             "the blocks the implementation delivered on case %d (%s)" % (c["i"], c.get("sub")))
+            if not getattr(ck, "nofail_detail", None):
+                ck.nofail_detail = {"kind": "correspondence-block-reader", "case_index": c["i"], "sub": c.get("sub"), "stream": c["stream"]}
+        ck.cov["block_reader_runs_reproduced_by_model"] = sum(1 for c in cases if c.get("stream")) - len(ev[1])
     else:
         # proofs or model do not build: still run the direct oracle alone
         for c in cases:
@@ -211,7 +270,7 @@ def main(ck):
     for fid, what in sorted(stats["first"].items()):
         ck.known_finding(fid, "%s (%d failing inputs in this run)" % (what, stats["by_finding"][fid]))
     # coverage
-    hist = collections.Counter((c["class"] + ("/" + c["sub"] if c.get("sub") and c["class"] != "corpus" else "")) for c in cases)
+    hist = collections.Counter((c["class"] + ("/" + c["sub"] if c.get("sub") and c["class"] != "corpus" and not c["class"].startswith("stream") else "")) for c in cases)
     nontriv = set(c["in"] for c in cases if c["nontrivial"])
     ck.cov["evaluations"] = len(cases) + len(e2e) + ck.cov.get("block_reader_sweep_bodies", 0)
     ck.cov["e2e_requests"] = len(e2e)
@@ -241,7 +300,8 @@ def replay(ck, binp, ok):
         ck.broken.append("harness c06 replay failed rc=%d: %s" % (rc, out[-400:]))
         return
     c = cases[0]
-    codes = eval_model(ck, cases) if ok else None
+    ev = eval_model(ck, cases) if ok else None
+    codes = ev[0] if ev is not None else None
     code = (codes or {}).get(0, 0)
     ck.log("replay input %r -> implementation err=%s rows=%s ; model code %s (%s)" % (
         c["text"], c["err"], json.dumps(c["rows"]), code, code_ids(code)))
